@@ -17,7 +17,7 @@ RULE = ('case = (hard/soft/both graph over 1-6 probe tasks, possibly with back e
         'or the master blocked in Condition.wait at least once; distinct = (graph, outcomes, init, '
         'workers, trace hash)')
 ASSUMPTIONS = ['Condition/Queue/RLock look-alikes have CPython blocking semantics, spurious wake-ups are '
-               'not generated; corroborated by running generated cases on real threads in a child process '
+               'generated in an eighth of the cases; corroborated by running generated cases on real threads in a child process '
                '(coverage keys real_thread_*): a real run that hangs or leaks is reported only when the '
                'controlled scheduler reproduces it',
                'initial WAITING/PENDING leftovers are not generated (the property lists the three final states)',
@@ -255,7 +255,7 @@ MANIFEST = {
              'schedules with <= 1 (quick) / <= 2 (thorough) pre-emptions are enumerated for small '
              'configurations. Exploration: liveness beyond "no deadlock state reachable within the explored '
              'schedules" is not established.'),
-    'note': ('Trusts the blocking semantics of the look-alike primitives (vlib/vsched.py); spurious wake-ups and '
+    'note': ('Trusts the blocking semantics of the look-alike primitives (vlib/vsched.py); spurious wake-ups (generated in an eighth of the cases) are modelled as a wake-up N scheduling points after going to sleep; '
              'interleavings below synchronisation operations are not explored.'),
     'technique': 'property-based testing with a controlled thread scheduler; exact deadlock/leak verdicts; bounded-pre-emption exhaustive schedules',
     'design_ref': 'DESIGN.md sections 2 and 3 (C03)',
